@@ -134,7 +134,8 @@ def render(doc, rng, plain=False):
         elif r < 0.8:
             o.put(rng.choice([" /* c */ ", "/**/ ", " /** banner **/ ", "/* a * b ** c */", " /***/ ", "/* / */ ", " /* é */"]))
         elif nl_ok and r < 0.84:
-            o.put(rng.choice(["/* closing in\ncolumn 0\n*/ ", " /*\n * boxed\n **/\n", "/* x\r\n*/"]))
+            o.put(rng.choice(["/* closing in\ncolumn 0\n*/ ", " /*\n * boxed\n **/\n", "/* x\r\n*/",
+                              "/* see\n// also this\n*/ ", "/* a\n/b */", "/*\r/ */ "]))
         elif nl_ok and r < 0.9:
             o.put("\n  ")
         elif nl_ok:
@@ -213,7 +214,8 @@ def render(doc, rng, plain=False):
             rdecls.append(dict(d="start", name=d["name"], occ=[]))
         o.put("\n")
         if not plain and rng.random() < 0.3:
-            o.put(rng.choice(["\n", "// comment line\n", "/* block\n comment */\n", "   \n", "/** doc **/\n", "/*\n*/\n", "// é //\n"]))
+            o.put(rng.choice(["\n", "// comment line\n", "/* block\n comment */\n", "   \n", "/** doc **/\n", "/*\n*/\n", "// é //\n",
+                              "/* see\n// also this\n*/\n", "/*\n/ x\n*/\n"]))
     o.put("%%\n")
     rrules = []
     for piece in doc["rules"]:
